@@ -71,7 +71,42 @@ def shapes(prog, tid, depth, stack=(), limit=100000):
         if "fn" in t:
             return [("opaque", "fn")]
         if "partial" in t:
-            return [("opaque", "partial")]
+            # closed world: every tuple of this program that has the partial's name (if any)
+            # and fields; the named fields take the partial's field types, the others their
+            # declared types
+            part = t["partial"]
+            pname, pfields = part.get("name"), dict((n, ft) for n, ft in (part.get("fields") or []))
+            out = []
+            for tup, (name, fields) in enumerate(prog.tuples):
+                if pname is not None and name != pname:
+                    continue
+                labels = [l for l, _ in fields]
+                if not all(n in labels for n in pfields):
+                    continue
+                if not fields:
+                    out.append(("tuple", tup, ()))
+                    continue
+                if depth <= 0:
+                    continue
+                per = []
+                try:
+                    for (lbl, ft) in fields:
+                        sh = shapes(prog, pfields.get(lbl, ft), depth - 1, stack, limit)
+                        if not sh:
+                            per = None
+                            break
+                        per.append(sh)
+                except ShapeError:
+                    per = None
+                if per is None:
+                    continue
+                n = 1
+                for sh in per:
+                    n *= len(sh)
+                if n > limit:
+                    raise ShapeError("too many shapes (%d)" % n)
+                out.extend(("tuple", tup, combo) for combo in itertools.product(*per))
+            return out
         if "process" in t:
             return [("opaque", "process")]
         if "resource" in t:
